@@ -168,7 +168,7 @@ class Extractor(Translator):
 
     def vardecl(self, d):
         info = self.ast.D.get(d["id"], {})
-        if self.STREAM_RE.match(info.get("type", "")):
+        if self.STREAM_RE.match(info.get("type", "")) and not (self.opts.get("bounded_str") and "stringstream" in info.get("type", "")):
             self.rule("dropped:string-stream variable")
             return []
         return super().vardecl(d)
